@@ -41,6 +41,8 @@ var Check = &run.Check{
 		"one or more --no-ff merges of a topic branch with work on both sides; 1-5 authors with spaces/digits/non-ASCII, one author name being a prefix of another; subjects with [hex], brackets, colons, " +
 		"=>, the commit's own date, other dates, the author's name, numstat-/summary-looking words, conventional-commit prefixes, leading blanks/tab/U+3000, trailing U+00A0/U+2003 (git keeps them in %s); " +
 		"every 60th repository has one commit whose first message paragraph (= %s, one log line) is 70-100 KB) executed by the installed git with fixed dates and an empty configuration; " +
+		"in a third of the repositories a quarter of the commits carry an author date up to 40 days before the committer date, in another time zone (rebased / cherry-picked commits: %ad decreases along the log); " +
+		"about every 12th operation is a name-tail collision: P created or deleted while Q is only modified and P ends with Q (docs/README.md + README.md, `d/e/b c.txt` + c.txt); " +
 		"every 240th case instead a linear history of 1003-1600 commits written with git fast-import (tiny blobs, create/modify/delete/exact rename, empty commits); " +
 		"every 3rd case, after the first report, an ancestor on the first-parent chain is checked out and `coca git` runs again in the same directory (the report must be valid JSON with exactly the shorter history); " +
 		"truth = git log --reverse -z --raw --numstat --format=%x01%h%x00%P%x00%aN%x00%ad%x00%s%x00 --date=short, cross-checked against git's own textual numstat; " +
@@ -80,7 +82,7 @@ func runCase(c *run.Ctx, o *run.Outcome) {
 	r := c.Rng
 	// every 60th repository (2 in quick, 40 in thorough) carries one commit whose first message paragraph, i.e. its
 	// %s subject and therefore one line of the log, is 70-100 KB long
-	sc := gitgen.Generate(r.Fork(), gitgen.Opts{MinCommits: 3, MaxCommits: 25, MaxOps: 12, LongSubject: c.Index%60 == 7})
+	sc := gitgen.Generate(r.Fork(), gitgen.Opts{MinCommits: 3, MaxCommits: 25, MaxOps: 12, LongSubject: c.Index%60 == 7, OldAuthorDates: true, TailCollisions: true})
 	rerunRng := r.Fork()
 	repo := filepath.Join(c.Scratch(), "repo")
 	witness := map[string]interface{}{"script": sc}
@@ -119,7 +121,17 @@ func runCase(c *run.Ctx, o *run.Outcome) {
 	// coverage
 	var shape []interface{}
 	nExp, nRen, nSpecial := 0, 0, 0
+	prevDate := ""
 	for i, t := range truth {
+		if gitgen.TailCollision(t) {
+			o.Count("truth_commits_creating_or_deleting_a_path_that_ends_with_a_modified_path", 1)
+		}
+		if t.Expected() {
+			if prevDate != "" && t.Date < prevDate {
+				o.Count("truth_commits_with_author_date_earlier_than_predecessor", 1)
+			}
+			prevDate = t.Date
+		}
 		switch {
 		case t.Parents > 1:
 			o.Count("truth_merge_commits", 1)
